@@ -514,6 +514,12 @@ impl<'a> FnCx<'a> {
                 self.zonk(i, line)?;
                 self.zonk(b, line)
             }
+            E::Inline(binds, body) => {
+                for (_, a) in binds.iter_mut() {
+                    self.zonk(a, line)?;
+                }
+                self.zonk(body, line)
+            }
         }
     }
 }
